@@ -18,9 +18,9 @@ typedef struct { int present[MAXU], val[MAXU]; } model_t;
 static sm_spec_t SP;
 static long n_unlink_head, n_unlink_mid, n_unlink_tail, n_maxchain;
 
-enum { OP_PUT, OP_REMOVE, OP_CLEAR };
+enum { OP_PUT, OP_REMOVE, OP_CLEAR, OP_SCANREMOVE };
 typedef struct { int kind, k, v; const char *label; } op_t;
-static op_t OPS[64]; static int NOPS;
+static op_t OPS[96]; static int NOPS; static long n_scanrm, n_scanrm_next;
 static const char *op_label(int op) { return OPS[op].label; }
 static int m_count(const model_t *m) { int c = 0; for (int i = 0; i < U; i++) c += m->present[i]; return c; }
 static int keyid(const char *name) { for (int i = 0; i < U; i++) if (!strcmp(KEYS[i], name)) return i; return -1; }
@@ -122,6 +122,29 @@ static int apply(qhashtbl_t *t, model_t *m, const op_t *op, int check, const cha
             m->present[op->k] = 0; break;
         }
         case OP_CLEAR: t->clear(t); memset(m->present, 0, sizeof m->present); break;
+        case OP_SCANREMOVE: {   /* documented: "make sure newmem flag is set if deletion is expected during the scan" - a copying walk, key k removed after the v-th element */
+            if (m_count(m) < op->v) return 1;
+            qhashtbl_obj_t o; memset(&o, 0, sizeof o); int seen[MAXU] = {0}, n = 0, removed = 0;
+            while (t->getnext(t, &o, true)) {
+                n++;
+                int id = keyid(o.name);
+                if (check) {
+                    if (id < 0) vc_viol("scanrm:unknown-key", "%s: element %d of the walk is no stored key", after, n);
+                    else if (seen[id]++) vc_viol("scanrm:duplicate", "%s: key '%s' returned twice", after, KEYS[id]);
+                    else if (!m->present[id]) vc_viol("scanrm:removed-key", "%s: key '%s' returned after it had been removed", after, KEYS[id]);
+                    else if (o.size != VAL[m->val[id]].n || memcmp(o.data, VAL[m->val[id]].b, o.size)) vc_viol("scanrm:value", "%s: key '%s' returned with a wrong value", after, KEYS[id]);
+                }
+                free(o.name); free(o.data);
+                if (n == op->v && !removed) {
+                    removed = 1; if (check) { n_scanrm++; if (o.next && !strcmp(o.next->name, KEYS[op->k])) n_scanrm_next++; }
+                    bool r = t->remove(t, KEYS[op->k]);
+                    if (check && r != (bool)m->present[op->k]) vc_viol("map:remove-result", "%s: remove inside the walk returned %d", after, r);
+                    m->present[op->k] = 0;
+                }
+                if (n > U + 1) { if (check) vc_viol("scanrm:endless", "%s: walk does not end", after); break; }
+            }
+            break;
+        }
     }
     return 0;
 }
@@ -153,6 +176,7 @@ static void setup(void) {
     for (int k = 0; k < U; k++) for (int v = 0; v < NV; v++) OPS[NOPS++] = (op_t){OP_PUT, k, v, VAL[v].kind == 0 ? "qhashtbl_put" : VAL[v].kind == 1 ? "qhashtbl_putstr" : "qhashtbl_putint"};
     for (int k = 0; k < U; k++) OPS[NOPS++] = (op_t){OP_REMOVE, k, 0, "qhashtbl_remove"};
     OPS[NOPS++] = (op_t){OP_CLEAR, 0, 0, "qhashtbl_clear"};
+    for (int j = 1; j <= 3; j++) for (int k = 0; k < U; k++) OPS[NOPS++] = (op_t){OP_SCANREMOVE, k, j, "qhashtbl_getnext"};
     snprintf(SP.prefix, sizeof SP.prefix, "hashtbl:%d:%d:%d:", RANGE, U, NV);
     SP.nops = NOPS; SP.label = op_label; SP.transition = transition; SP.initial = initial;
 }
@@ -165,7 +189,7 @@ static int worker(int argc, char **argv) {
     RANGE = atoi(argv[1]); U = atoi(argv[2]); NV = atoi(argv[3]);
     setup();
     sm_search(&SP, 0);
-    vc_stat_add("unlink_head", n_unlink_head); vc_stat_add("unlink_middle", n_unlink_mid); vc_stat_add("unlink_tail", n_unlink_tail); vc_stat_add("max_chain", n_maxchain);
+    vc_stat_add("unlink_head", n_unlink_head); vc_stat_add("unlink_middle", n_unlink_mid); vc_stat_add("unlink_tail", n_unlink_tail); vc_stat_add("max_chain", n_maxchain); vc_stat_add("scans_with_removal", n_scanrm); vc_stat_add("scans_removing_the_next_node", n_scanrm_next);
     return 0;
 }
 int main(int argc, char **argv) { return vc_main(argc, argv, worker); }
